@@ -261,8 +261,39 @@ def run(prop, tier):
                     am_events = C.read_ndjson(amt)
                 out.verdict(v, am_events[v["i"] - 1])
         out.extra["attribute_move_sessions"] = am_sessions
-        out.traces = nev + am_sessions
-        out.evaluations = total + nrnd + am_sessions
+        # defaulting is by QUALIFIED name (AttrQName.tla): a, p:a and q:a are three attributes; observed without names
+        aqr = os.path.join(wd, "aq.replay")
+        aqmc = C.run_tlc("MC_AttrQName", "MC_AttrQName.cfg", "aqmc", to_file=aqr, workers=2, timeout=900,
+                         keep_tags=["REPLAY"])
+        C.tlc_must_pass(aqmc, "MC_AttrQName")
+        out.add_tlc(aqmc)
+        aqt = os.path.join(wd, "aq.trace")
+        so = C.run_harness(["dom-attrq", "--in", aqr, "--out", aqt])
+        aq_events = json.loads(so.strip().splitlines()[-1])["events"]
+        if aq_events != 2 * C.count_lines(aqr) or aq_events == 0:
+            raise C.ToolError("dom-attrq observed %d events for %d cases" % (aq_events, C.count_lines(aqr)))
+        cfgname = "Trace_AttrQName.%d.cfg" % os.getpid()
+        cfgp = os.path.join(C.SPEC, cfgname)
+        C.write_cfg(cfgp, ["SPECIFICATION TSpec", "CONSTANT Open = %s" % C.tla_set(out.open.keys()),
+                           "POSTCONDITION Done", "CHECK_DEADLOCK FALSE"])
+        try:
+            r3 = C.run_tlc("Trace_AttrQName", cfgname, "aqtv", env={"TRACE": aqt}, workers=1, deque=True, timeout=900)
+        finally:
+            os.unlink(cfgp)
+        C.tlc_must_pass(r3, "Trace_AttrQName")
+        if r3.distinct != aq_events + 1:
+            raise C.ToolError("qualified-name validation visited %d states for %d events" % (r3.distinct, aq_events))
+        aq_evs = None
+        for tg, v in r3.lines:
+            if tg == "TRUNCATED":
+                raise C.ToolError("qualified-name validation truncated")
+            if tg == "VERDICT":
+                if aq_evs is None:
+                    aq_evs = C.read_ndjson(aqt)
+                out.verdict(v, aq_evs[v["i"] - 1])
+        out.extra["qualified_name_defaulting_events"] = aq_events
+        out.traces = nev + am_sessions + aq_events
+        out.evaluations = total + nrnd + am_sessions + aq_events
         # evidence: non-trivial = the literal has a reference or white space, or the case is defaulted
         with open(obs) as f:
             for line in f:
